@@ -1,17 +1,24 @@
 """C04 - sensor orientation and azimuth handling are geometrically consistent.
 
-E2.  Seven families of root cases, every case executed on the real hvsrpy code:
+E2.  Nine families of root cases, every case executed on the real hvsrpy code:
 
 orient      SeismicRecording3C(deployed d).orient_sensor_to(t) [.orient_sensor_to(t2)] [.orient_sensor_to(d)]
-            for the full product d x t x t2 of the angle alphabet, compared with the plane rotation written
-            from the clockwise-from-north definition (hvmc.ref.rotation): exact rotation, vertical bit-identical,
-            energy, degrees_from_north, composition, inverse.
+            for the full product d x t x t2 of the angle alphabet (including angles less than 0.1 degree apart),
+            compared with the plane rotation written from the clockwise-from-north definition
+            (hvmc.ref.rotation): exact rotation, vertical bit-identical, energy, degrees_from_north,
+            composition, inverse.
+steps       n re-orientations in steps of a fraction of a degree == one re-orientation by n steps == the
+            reference rotation by n steps (also after the first step).
+history     orient_sensor_to(a); modify the recording (butterworth_filter, detrend, window, trim, assignment of
+            amplitudes / components); orient_sensor_to(b) [; modify again; orient_sensor_to(c)]: every
+            re-orientation is the reference rotation of the samples the recording held just before it.
 polarised   motion polarised along a true azimuth theta, recorded (reference geometry) by a sensor deployed
             at d, re-oriented by hvsrpy to north (and to every other target): the motion is back on azimuth
             theta - for the reference projection, for hvsrpy.processing.single_azimuth and through process().
 single      process(single azimuth a) == process(azimuth 0) after turning the sensor by a == HVSR of the
             north component of the turned sensor == process(azimuth a + 180).
-azimuthal   process(azimuthal) == stack of process(single azimuth) row for row, bit for bit.
+azimuthal   process(azimuthal) == stack of process(single azimuth) row for row, bit for bit; entry i belongs to
+            the caller's i-th azimuth (ascending, shuffled, descending and repeated azimuth sequences).
 rotdpp      RotDpp non-decreasing in the percentile, inside [min, max] of the single-azimuth curves.
 invariant   squared-average family, total-horizontal-energy family, diffuse field: unchanged by any
             re-orientation / any deployment angle (geometric mean as the control that must change).
@@ -39,7 +46,20 @@ ATOL_REL = 1e-12            # absolute tolerance on samples, relative to the lar
 
 ANGLES = [0, 30, 90, 200, 359, -45, 400, 725]          # deployed / target / second target / true azimuth
 AZIMUTHS = [0, 30, 90, 135, 180, -45, 400]              # single-azimuth requests (as C01)
-AZ_SETS = {"two": [0, 90], "four": [0, 45, 90, 135], "twelve": list(range(0, 180, 15))}
+AZ_SETS = {"two": [0, 90], "four": [0, 45, 90, 135], "twelve": list(range(0, 180, 15)),
+           # not ascending: entry i of the result must belong to the caller's i-th azimuth
+           "shuffled": [90, 0, 135, 45], "unsorted3": [120, 30, 60], "descending": list(range(150, -1, -30)),
+           "repeat": [30, 120, 30]}
+AZIMUTHAL_SETS = ["two", "four", "twelve", "shuffled", "unsorted3", "descending", "repeat"]
+ROTDPP_SETS = ["two", "four", "twelve", "shuffled", "unsorted3"]
+# angles a fraction of a degree away from another member of the alphabet (and 360 == 0): a re-orientation by
+# 0.08, 0.05 (359.95 -> 360, 30 -> 30.05) or 0.03 (0.08 -> 0.05 ...) degree is still a rotation
+TINY_ANGLES = [0.08, 359.95, 360, 30.05]
+ORIENT_ANGLES = ANGLES + TINY_ANGLES
+POL_DEPLOYED = ANGLES + [0.08, 359.95, 30.05]
+POL_TARGETS = [0] + ANGLES[1:] + [360]
+STEP_SIZES = [0.05, -0.09, 1e-3, 1e-6]          # degrees per re-orientation
+STEP_COUNTS = [1, 2, 20, 200]
 PERCENTILES = [0, 25, 50, 100]
 
 ROT_TRIPLES = [("noise1", "noise2", "noise3"), ("ramp", "two_sines", "alt"),
@@ -172,12 +192,17 @@ def _is_default(space, cfg, dims=None):
     return all(cfg[k] == space[k][0] for k in (dims or space))
 
 
+NONTRIVIAL = ("oblique", "tiny")
+
+
 def _angle_class(r):
     r = math.fmod(r, 360.0)
     if r < 0:
         r += 360.0
     if r == 0:
         return "zero"
+    if min(r, 360.0 - r) < 1.0:
+        return "tiny"           # a fraction of a degree: still a rotation
     if math.fmod(r, 90.0) == 0:
         return "quadrant"
     return "oblique"
@@ -193,6 +218,15 @@ def roots(tier, seed):
         for L in ROT_LENGTHS:
             for scale in (SCALES if thorough else SCALES[:2]):
                 out.append(dict(part="orient", triple=ti, L=L, scale=scale))
+                out.append(dict(part="steps", triple=ti, L=L, scale=scale))
+    k = 0
+    for ti in range(len(ROT_TRIPLES) if thorough else 2):
+        for L in HIST_LENGTHS:
+            for scale in (SCALES if thorough else SCALES[:2]):
+                # deployed orientation of the recording: two of the alphabet per (signals, L, scale), rotating
+                for j in range(2):
+                    out.append(dict(part="history", triple=ti, L=L, scale=scale, d=ANGLES[(2 * k + 3 * j + 1) % len(ANGLES)]))
+                k += 1
     for mi in range(len(MOTIONS) if thorough else 2):
         for L in ROT_LENGTHS:
             for scale in (SCALES if thorough else SCALES[:2]):
@@ -202,11 +236,11 @@ def roots(tier, seed):
         for d in (ANGLES if thorough else [0, 30, -45, 725]):
             out.append(dict(part="single", wi=wi, d=d))
     for wi in wins:
-        for s in AZ_SETS:
+        for s in AZIMUTHAL_SETS:
             for d in ((0, 200) if thorough else (ANGLES[(wi + len(s)) % len(ANGLES)],)):
                 out.append(dict(part="azimuthal", wi=wi, azset=s, d=d))
     for wi in wins:
-        for s in AZ_SETS:
+        for s in ROTDPP_SETS:
             for nwin in (1, 2):
                 out.append(dict(part="rotdpp", wi=wi, azset=s, nwin=nwin, d=ANGLES[(wi + nwin) % len(ANGLES)]))
     for wi in wins:
@@ -236,9 +270,9 @@ def _part_orient(root, ctx, tier):
     def same(a, b):
         return close(a, b, rtol=RTOL, atol=atol)
 
-    for d in ANGLES:
-        for t in ANGLES:
-            for t2 in ANGLES:
+    for d in ORIENT_ANGLES:
+        for t in ORIENT_ANGLES:
+            for t2 in ORIENT_ANGLES:
                 ctx.count("states")
                 case = dict(deployed=d, target=t, second_target=t2, signals=list(names), L=L, scale=scale)
                 rec = mk(ns0, ew0, vt0, dt, d)
@@ -257,7 +291,7 @@ def _part_orient(root, ctx, tier):
                 ctx.count("validated")
                 cls = _angle_class(t - d)
                 ctx.outcome(("orient", cls, (t - d) % 360, root["triple"], L))
-                if cls == "oblique":
+                if cls in NONTRIVIAL:
                     ctx.nontrivial_case(("orient", root["triple"], L, scale, d, t, t2))
                 if (root["triple"], L, scale, d, t, t2) == (0, 8, 1.0, 30, 200, -45):
                     ctx.sample(dict(root=root, case=case, ns_after=ns1[:3].tolist(), ns_reference=rns[:3].tolist()))
@@ -330,6 +364,264 @@ def _part_orient(root, ctx, tier):
 
 
 # ---------------------------------------------------------------------------
+# steps: many re-orientations by a fraction of a degree == one re-orientation == the reference rotation
+
+def _part_steps(root, ctx, tier):
+    names = ROT_TRIPLES[root["triple"]]
+    L, scale, dt = root["L"], root["scale"], 0.01
+    ns0, ew0, vt0 = (_sig(n, L, scale) for n in names)
+    big = float(max(np.abs(ns0).max(), np.abs(ew0).max()))
+    atol = ATOL_REL * big
+    e0 = RR.energy(ns0, ew0)
+
+    def same(a, b):
+        return close(a, b, rtol=RTOL, atol=atol)
+
+    for d in ANGLES:
+        wrapped = d - 360.0 * math.floor(d / 360.0)
+        for start in ([wrapped] if wrapped == d else [wrapped, d]):
+            # ``start`` is the angle the targets are counted from: the deployed direction inside [0, 360), and the
+            # caller's own value of it (then the first step also crosses whole turns)
+            for step in STEP_SIZES:
+                for n in STEP_COUNTS:
+                    ctx.count("states")
+                    targets = [start + k * step for k in range(1, n + 1)]
+                    case = dict(deployed=d, targets_counted_from=start, step=step, n_steps=n, signals=list(names),
+                                L=L, scale=scale)
+                    rec = mk(ns0, ew0, vt0, dt, d)
+                    failed = None
+                    after_first = None
+                    for k, t in enumerate(targets):
+                        failed = _orient(ctx, rec, t)
+                        if failed:
+                            break
+                        if k == 0:
+                            after_first = (rec.ns.amplitude.copy(), rec.ew.amplitude.copy())
+                    one = mk(ns0, ew0, vt0, dt, d)
+                    failed = failed or _orient(ctx, one, targets[-1])
+                    if failed:
+                        ctx.violation("C04:orient_sensor_to:raises", root, detail=case, expected="a rotation",
+                                      observed=list(failed), explanation="orient_sensor_to raised on a valid angle")
+                        continue
+                    ctx.count("validated")
+                    ctx.nontrivial_case(("steps", root["triple"], L, scale, d, start, step, n))
+                    ctx.outcome(("steps", step, n, root["triple"], L))
+                    if (root["triple"], L, scale, d, step, n) == (0, 8, 1.0, 30, 0.05, 200):
+                        ctx.sample(dict(root=root, case=case, ns_before=ns0[:3].tolist(),
+                                        ns_after=rec.ns.amplitude[:3].tolist()))
+                    f_ns, f_ew = RR.reorient(ns0, ew0, d, targets[0])
+                    ctx.count("steps_evaluated")
+                    if not (same(f_ns, ns0) and same(f_ew, ew0)):
+                        ctx.count("steps_first_step_distinguishable")
+                    if not (same(after_first[0], f_ns) and same(after_first[1], f_ew)):
+                        ctx.violation("C04:steps:first-step:reference-rotation", root, detail=case,
+                                      expected=dict(ns=f_ns.tolist(), ew=f_ew.tolist()),
+                                      observed=dict(ns=after_first[0].tolist(), ew=after_first[1].tolist()),
+                                      explanation="a re-orientation by a fraction of a degree is not the "
+                                                  "clockwise-from-north rotation by that angle")
+                    r_ns, r_ew = RR.reorient(ns0, ew0, d, targets[-1])
+                    ns_n, ew_n = rec.ns.amplitude, rec.ew.amplitude
+                    if not (same(ns_n, r_ns) and same(ew_n, r_ew) and same(ns_n, one.ns.amplitude)
+                            and same(ew_n, one.ew.amplitude)):
+                        ctx.violation("C04:steps:composition-of-small-steps", root, detail=case,
+                                      expected=dict(ns=r_ns.tolist(), ew=r_ew.tolist()),
+                                      observed=dict(n_calls=dict(ns=ns_n.tolist(), ew=ew_n.tolist()),
+                                                    one_call=dict(ns=one.ns.amplitude.tolist(),
+                                                                  ew=one.ew.amplitude.tolist())),
+                                      explanation="n re-orientations in small steps differ from one re-orientation "
+                                                  "by n steps / from the reference rotation by n steps")
+                    if not bitwise_equal(rec.vt.amplitude, vt0):
+                        ctx.violation("C04:orient_sensor_to:vertical:not-bit-identical", root, detail=case,
+                                      expected=vt0.tolist(), observed=rec.vt.amplitude.tolist(),
+                                      explanation="re-orienting changed the vertical component")
+                    e1 = RR.energy(ns_n, ew_n)
+                    if not close(e1, e0, rtol=RTOL):
+                        ctx.violation("C04:steps:energy", root, detail=case, expected=e0, observed=e1,
+                                      explanation="sum(ns^2 + ew^2) is not preserved by the small re-orientations")
+                    if not RR.same_direction(rec.degrees_from_north, targets[-1]):
+                        ctx.violation("C04:orient_sensor_to:degrees_from_north:not-target", root, detail=case,
+                                      expected=f"{targets[-1]} modulo 360", observed=rec.degrees_from_north,
+                                      explanation="degrees_from_north does not track the target orientation")
+
+
+# ---------------------------------------------------------------------------
+# history: orient -> modify the recording -> orient [-> modify -> orient]; every re-orientation rotates the
+# samples the recording holds at that moment
+
+HIST_LENGTHS = [33, 64]
+HIST_DT = 0.01
+HIST_OPS = [["butterworth_filter", [5.0, None]], ["butterworth_filter", [None, 20.0]],
+            ["butterworth_filter", [2.0, 20.0]], ["detrend", "linear"], ["detrend", "constant"],
+            ["window", 0.1], ["window", 1.0], ["trim", [0.03, 0.25]],
+            ["assign_amplitude", "ns"], ["assign_amplitude", "ew"], ["assign_amplitude", "all"],
+            ["scale_in_place", "ew"], ["replace_timeseries", "ns+ew"]]
+HIST_OPS2 = [None, ["detrend", "linear"], ["window", 0.1], ["trim", [0.02, 0.1]], ["assign_amplitude", "ew"],
+             ["butterworth_filter", [5.0, None]]]
+HIST_THIRD = ["back", 0, 90.05, -45]        # "back" = the orientation before the previous re-orientation
+HIST_PAIRS_QUICK = [(30, 200), (0, 90), (-45, 725), (359, 0)]
+_ASSIGNED = dict(ns="noise5", ew="two_sines", vt="noise4")
+
+
+def _apply(ctx, rec, op, scale):
+    """Apply one public amplitude-changing operation to the recording -> None or (error name, text)."""
+    name, arg = op
+    ctx.count("transitions")
+    try:
+        with warnings.catch_warnings():
+            warnings.simplefilter("ignore")
+            if name == "butterworth_filter":
+                rec.butterworth_filter(tuple(arg))
+            elif name == "detrend":
+                rec.detrend(type=arg)
+            elif name == "window":
+                rec.window(type="tukey", width=arg)
+            elif name == "trim":
+                rec.trim(arg[0], arg[1])
+            elif name == "assign_amplitude":
+                for comp in (("ns", "ew", "vt") if arg == "all" else (arg,)):
+                    ts = getattr(rec, comp)
+                    ts.amplitude = _sig(_ASSIGNED[comp], ts.n_samples, scale) + 0.25 * ts.amplitude
+            elif name == "scale_in_place":
+                getattr(rec, arg).amplitude *= -2.5
+            elif name == "replace_timeseries":
+                for comp in arg.split("+"):
+                    ts = getattr(rec, comp)
+                    setattr(rec, comp, TimeSeries(_sig(_ASSIGNED[comp], ts.n_samples, scale) - 0.5 * ts.amplitude,
+                                                  ts.dt_in_seconds))
+            else:
+                raise KeyError(name)
+    except KeyError:
+        raise
+    except Exception as e:      # noqa: BLE001
+        return (type(e).__name__, str(e)[:300])
+    return None
+
+
+def _snapshot(rec):
+    return rec.ns.amplitude.copy(), rec.ew.amplitude.copy(), rec.vt.amplitude.copy()
+
+
+def _check_reoriented(ctx, root, case, opname, snap, rec, current, target):
+    """``rec`` was re-oriented from ``current`` to ``target`` when it held the samples ``snap``."""
+    s_ns, s_ew, s_vt = snap
+    big = float(max(np.abs(s_ns).max(), np.abs(s_ew).max()))
+    atol = ATOL_REL * big
+    r_ns, r_ew = RR.reorient(s_ns, s_ew, current, target)
+    ns1, ew1 = rec.ns.amplitude, rec.ew.amplitude
+    ok = True
+    if not (close(ns1, r_ns, rtol=RTOL, atol=atol) and close(ew1, r_ew, rtol=RTOL, atol=atol)):
+        ok = False
+        ctx.violation(f"C04:history:after-{opname}:horizontals:reference-rotation-of-current-samples", root,
+                      detail=case, expected=dict(ns=r_ns.tolist(), ew=r_ew.tolist()),
+                      observed=dict(ns=np.asarray(ns1).tolist(), ew=np.asarray(ew1).tolist()),
+                      explanation="orient_sensor_to did not rotate the samples the recording held when it was "
+                                  f"called (from {current} to {target} degrees, clockwise from north)")
+    if not bitwise_equal(rec.vt.amplitude, s_vt):
+        ok = False
+        ctx.violation(f"C04:history:after-{opname}:vertical:not-bit-identical", root, detail=case,
+                      expected=s_vt.tolist(), observed=np.asarray(rec.vt.amplitude).tolist(),
+                      explanation="re-orienting changed the vertical component")
+    e0, e1 = RR.energy(s_ns, s_ew), RR.energy(ns1, ew1)
+    if not close(e1, e0, rtol=RTOL):
+        ok = False
+        ctx.violation(f"C04:history:after-{opname}:energy", root, detail=case, expected=e0, observed=e1,
+                      explanation="sum(ns^2 + ew^2) of the current samples is not preserved by the re-orientation")
+    if not RR.same_direction(rec.degrees_from_north, target):
+        ok = False
+        ctx.violation("C04:history:degrees_from_north:not-target", root, detail=case,
+                      expected=f"{target} modulo 360", observed=rec.degrees_from_north,
+                      explanation="degrees_from_north does not track the target orientation")
+    return ok
+
+
+def _history_cases(tier):
+    """(first, op1, second, op2, third) - third None = history of depth 2."""
+    for a in ANGLES:
+        for b in ANGLES:
+            for op1 in HIST_OPS:
+                yield a, op1, b, None, None
+    pairs = HIST_PAIRS_QUICK if tier == "quick" else [(a, b) for a in ANGLES for b in ANGLES]
+    for a, b in pairs:
+        for op1 in HIST_OPS:
+            for op2 in HIST_OPS2:
+                for c in HIST_THIRD:
+                    yield a, op1, b, op2, c
+
+
+def _part_history(root, ctx, tier):
+    names = ROT_TRIPLES[root["triple"]]
+    L, scale, d, dt = root["L"], root["scale"], root["d"], HIST_DT
+    ns0, ew0, vt0 = (_sig(n, L, scale) for n in names)
+    for a, op1, b, op2, c in _history_cases(tier):
+        ctx.count("states")
+        third = a if c == "back" else c
+        case = dict(deployed=d, first_target=a, operation=op1, second_target=b, second_operation=op2,
+                    third_target=None if c is None else third, signals=list(names), L=L, dt=dt, scale=scale)
+        rec = mk(ns0, ew0, vt0, dt, d)
+        err = _orient(ctx, rec, a)
+        if err:
+            ctx.violation("C04:orient_sensor_to:raises", root, detail=case, expected="a rotation",
+                          observed=list(err), explanation="orient_sensor_to raised on a valid angle")
+            continue
+        before = _snapshot(rec)
+        if _apply(ctx, rec, op1, scale):
+            ctx.count("history_operation_refused")      # e.g. filter padding longer than the record: not C04
+            continue
+        snap = _snapshot(rec)
+        err = _orient(ctx, rec, b)
+        if err:
+            ctx.violation(f"C04:history:after-{op1[0]}:orient_sensor_to-raises", root, detail=case,
+                          expected="a rotation", observed=list(err),
+                          explanation="orient_sensor_to raised on a modified recording")
+            continue
+        ctx.count("validated")
+        cls = _angle_class(b - a)
+        if cls in NONTRIVIAL:
+            ctx.nontrivial_case(("history", root["triple"], L, scale, d, a, repr(op1), b, repr(op2), c))
+        ctx.outcome(("history", op1[0], repr(op1[1]), None if op2 is None else op2[0], cls, len(snap[0])))
+        ctx.count("history_evaluated")
+        hb = float(max(np.abs(snap[0]).max(), np.abs(snap[1]).max(), np.abs(before[0]).max(),
+                       np.abs(before[1]).max()))
+        if snap[0].shape != before[0].shape or not (close(snap[0], before[0], rtol=1e-6, atol=1e-9 * hb)
+                                                    and close(snap[1], before[1], rtol=1e-6, atol=1e-9 * hb)):
+            ctx.count("history_operation_changes_horizontals")
+        if (root["triple"], L, scale, a, b, c) == (0, 33, 1.0, 30, 200, None) and op1 == HIST_OPS[0]:
+            ctx.sample(dict(root=root, case=case, ns_before_second_orientation=snap[0][:3].tolist(),
+                            ew_before_second_orientation=snap[1][:3].tolist(),
+                            ns_after=rec.ns.amplitude[:3].tolist()))
+        if not _check_reoriented(ctx, root, case, op1[0], snap, rec, a, b):
+            continue
+        if c is None:
+            continue
+        opname = op1[0]
+        if op2 is not None:
+            if _apply(ctx, rec, op2, scale):
+                ctx.count("history_operation_refused")
+                continue
+            opname = op2[0]
+        snap2 = _snapshot(rec)
+        err = _orient(ctx, rec, third)
+        if err:
+            ctx.violation(f"C04:history:after-{opname}:orient_sensor_to-raises", root, detail=case,
+                          expected="a rotation", observed=list(err),
+                          explanation="orient_sensor_to raised on a modified recording")
+            continue
+        ctx.count("history_depth3_validated")
+        _check_reoriented(ctx, root, case, opname, snap2, rec, b, third)
+        if c == "back" and op2 is None:
+            # inverse on a modified recording: back to the previous orientation restores the modified samples
+            hb = float(max(np.abs(snap[0]).max(), np.abs(snap[1]).max()))
+            if not (close(rec.ns.amplitude, snap[0], rtol=0, atol=ATOL_REL * hb)
+                    and close(rec.ew.amplitude, snap[1], rtol=0, atol=ATOL_REL * hb)):
+                ctx.violation(f"C04:history:after-{opname}:inverse", root, detail=case,
+                              expected=dict(ns=snap[0].tolist(), ew=snap[1].tolist()),
+                              observed=dict(ns=np.asarray(rec.ns.amplitude).tolist(),
+                                            ew=np.asarray(rec.ew.amplitude).tolist()),
+                              explanation="orienting a modified recording away and back does not restore its "
+                                          "(modified) samples")
+
+
+# ---------------------------------------------------------------------------
 # polarised motion reappears on its true azimuth
 
 def _part_polarised(root, ctx, tier):
@@ -348,9 +640,9 @@ def _part_polarised(root, ctx, tier):
                            make_settings(dict(kind="single", azimuth=0), cfg, fcs))
     for theta in ANGLES:
         north, east = RR.polarised(m, theta)
-        for d in ANGLES:
+        for d in POL_DEPLOYED:
             ns_s, ew_s = RR.deploy(north, east, d)
-            for t in [0] + ANGLES[1:]:
+            for t in POL_TARGETS:
                 ctx.count("states")
                 case = dict(true_azimuth=theta, deployed=d, target=t, motion=m_name, L=L, scale=scale)
                 rec = mk(ns_s, ew_s, vt, dt, d)
@@ -363,7 +655,7 @@ def _part_polarised(root, ctx, tier):
                 ctx.count("validated")
                 cls = _angle_class(t - d)
                 ctx.outcome(("polarised", (theta - t) % 360, cls))
-                if cls == "oblique" and _angle_class(theta - t) == "oblique":
+                if cls in NONTRIVIAL and _angle_class(theta - t) in NONTRIVIAL:
                     ctx.nontrivial_case(("polarised", root["motion"], L, scale, theta, d, t))
                 if (root["motion"], L, scale, theta, d, t) == (0, 8, 1.0, 30, 200, 0):
                     ctx.sample(dict(root=root, case=case, recorded_ns=ns_s[:3].tolist(), recorded_ew=ew_s[:3].tolist(),
@@ -437,7 +729,7 @@ def _part_single(root, ctx, tier):
                               observed=list(r_a[1:]), explanation="single-azimuth processing raised")
                 continue
             cls = _angle_class(a)
-            if cls == "oblique":
+            if cls in NONTRIVIAL:
                 ctx.nontrivial_case(("single", root["wi"], d, repr(cfg), a))
             ctx.outcome(("single", root["wi"], a % 180, cfg["smoothing"][0], cfg["fft"], round(float(r_a[1].flat[0]), 6)))
             if a % 360 == 0 and north0 is None:
@@ -494,6 +786,9 @@ def _part_azimuthal(root, ctx, tier):
         s_az = make_settings(dict(kind="azimuthal", azimuths=azs), cfg, fcs)
         r_az = run_process(ctx, fresh(arrays, dt, d), s_az)
         if r_az[0] != "ok":
+            if len(set(azs)) < len(azs):
+                ctx.count("azimuthal_repeated_azimuth_refused")     # refusing a repeated azimuth is not excluded
+                continue
             ctx.violation(f"C04:azimuthal:raises:{r_az[1]}", root, detail=detail, expected="curves",
                           observed=list(r_az[1:]), explanation="azimuthal processing raised")
             continue
@@ -531,12 +826,20 @@ def _part_azimuthal(root, ctx, tier):
                           expected=dict(azimuths=azs, rows_per_azimuth=[nwin] * len(azs)), observed=ex,
                           explanation="the azimuthal result does not hold one HVSR set per requested azimuth, in order")
             continue
+        if azs != sorted(azs):
+            ctx.count("azimuthal_non_ascending_validated")
+            if not bitwise_equal(stack, np.vstack([rows[i] for i in np.argsort(azs, kind="stable")])):
+                ctx.count("azimuthal_order_matters")
         if not bitwise_equal(r_az[1], stack):
             worst = "differs-beyond-1e-9" if not close(r_az[1], stack, rtol=RTOL) else "differs-in-last-bits"
+            if worst == "differs-beyond-1e-9" and sorted(x.tobytes() for x in r_az[1]) == \
+                    sorted(x.tobytes() for x in stack):
+                worst = "rows-in-another-order"
             ctx.violation(f"C04:azimuthal:stack-of-single-azimuth:{worst}", root, detail=dict(detail, fft_n=int(n)),
                           expected=stack.tolist(), observed=r_az[1].tolist(),
                           explanation="the azimuthal result is not exactly the stack of the single-azimuth results "
-                                      "computed with the same settings and FFT length")
+                                      "computed with the same settings and FFT length, entry i for the i-th "
+                                      "requested azimuth")
         if not bitwise_equal(r_az[2], np.asarray(fcs, dtype=float)):
             ctx.violation("C04:azimuthal:frequency-vector", root, detail=detail, expected=fcs, observed=r_az[2].tolist(),
                           explanation="frequency vector of the azimuthal result is not the requested centres")
@@ -665,7 +968,7 @@ def _part_invariant(root, ctx, tier):
                     if res[0] == "ok" and not close(res[1], base[1], rtol=1e-6):
                         ctx.count("control_changes_under_rotation")
                 continue
-            if cls == "oblique":
+            if cls in NONTRIVIAL:
                 ctx.nontrivial_case(("invariant", root["wi"], method, repr(case), vname))
             ctx.outcome(("invariant", root["wi"], method, cfg["smoothing"][0], cfg["fft"], cfg["tukey"], cfg["fcs"],
                          round(float(base[1].flat[0]), 6)))
@@ -736,7 +1039,7 @@ def _part_preprocess(root, ctx, tier):
             continue
         ctx.count("validated")
         cls = _angle_class(t - d)
-        if cls == "oblique":
+        if cls in NONTRIVIAL:
             ctx.nontrivial_case(("preprocess", root["triple"], d, repr(cfg)))
         ctx.outcome(("preprocess", cfg["method"], len(a_res[1]), cls, cfg["detrend"], repr(cfg["corners"])))
         wa, wb, wn = a_res[1], b_res[1], n_res[1]
@@ -776,7 +1079,7 @@ def _part_preprocess(root, ctx, tier):
                                               "clockwise-from-north rotation by t - deployed")
 
 
-PARTS = dict(orient=_part_orient, polarised=_part_polarised, single=_part_single, azimuthal=_part_azimuthal,
+PARTS = dict(orient=_part_orient, steps=_part_steps, history=_part_history, polarised=_part_polarised, single=_part_single, azimuthal=_part_azimuthal,
              rotdpp=_part_rotdpp, invariant=_part_invariant, preprocess=_part_preprocess)
 
 
@@ -798,6 +1101,13 @@ def warm():
 NON_VACUITY = [
     ("anticlockwise_differs", "the anticlockwise rotation never differed from the observed re-orientation"),
     ("orient_changes_samples", "orient_sensor_to never changed the horizontals"),
+    ("steps_first_step_distinguishable", "a re-orientation by a fraction of a degree was never distinguishable "
+                                         "from no rotation at the comparison tolerance"),
+    ("history_operation_changes_horizontals", "the operations between two re-orientations never changed the "
+                                              "horizontals"),
+    ("history_depth3_validated", "no history with three re-orientations was compared"),
+    ("azimuthal_order_matters", "the stack of single-azimuth results never depended on the order of a "
+                                "non-ascending azimuth sequence"),
     ("azimuth_changes_curve", "the single-azimuth HVSR never depended on the azimuth"),
     ("rotdpp_strictly_increasing", "RotD100 never exceeded RotD0"),
     ("rotdpp_interior_percentiles_distinct", "RotD25/RotD50 never differed from RotD0/RotD100"),
